@@ -210,11 +210,14 @@ func ZZ_C08_Will() {
 		m := zzWillCopies(sq)[0]
 		zzrt.Assert(m.Topic == "w" && string(m.Payload) == "bye" && m.QoS == willQoS, "will-carries-topic-payload-qos")
 		zzrt.Assert(m.Retained == willRetain, "will-carries-retain-flag")
+		kept := srv.retainedDB.GetRetainedMessage("w")
+		zzrt.Assert((kept != nil) == willRetain, "will-with-retain-flag-is-kept-as-retained-message")
 		if v5 {
 			zzrt.Assert(m.MessageExpiry == 77 && m.PayloadFormat == 1 && m.ContentType == "ct" && m.ResponseTopic == "rt" && string(m.CorrelationData) == "cd", "will-carries-properties")
 		}
 		zzrt.Cover("published")
 	} else {
+		zzrt.Assert(srv.retainedDB.GetRetainedMessage("w") == nil, "unpublished-will-leaves-no-retained-message")
 		zzrt.Cover("not-published")
 	}
 }
